@@ -63,6 +63,8 @@ func hC03(n, prefix, L, vlen int) {
 	mB := stateMatches(db2, after, "C03.recovered")
 	vAssert(vOr(mA, mB), "C03.recovered-state-is-before-or-after-inflight-op")
 	checkSelfConsistent(db2, after, "C03.recovered")
+	vSegmentsWellFormed(db2, "C03.recovered")
+	vCheckLogInvariant(db2, "C03.recovered")
 	vCover("C03.done")
 }
 
